@@ -39,6 +39,14 @@ PY = "/venv/bin/python"
 
 # properties that observe a function although their anchor does not name it (callers found while building the checks)
 EXTRA = {
+    "src/cooler/_balance.py": {k: ["C10", "C11"] for k in ("_binarize", "_zero_diags", "_zero_trans", "_zero_cis", "_marginalize", "_timesouterproduct",
+                                                             "_balance_genomewide", "_balance_cisonly", "_balance_transonly", "balance_cooler")},
+    "src/cooler/cli/dump.py": {"make_annotator": ["C12", "C16"], "dump": ["C16"]},
+    "src/cooler/cli/balance.py": {"balance": ["C11", "C10"]},
+    "src/cooler/cli/cload.py": {"pairs": ["C05", "C16", "C06"]},
+    "src/cooler/cli/load.py": {"load": ["C05", "C16", "C06", "C15"]},
+    "src/cooler/core/_selectors.py": {"_IndexingMixin._process_slice": ["C03", "C14"], "_IndexingMixin._isintlike": ["C03", "C14"]},
+    "src/cooler/api.py": {"annotate": ["C14", "C16"], "matrix": ["C03", "C12", "C01"], "Cooler.matrix": ["C03", "C12", "C04"]},
     "src/cooler/util.py": {"get_binsize": ["C20", "C04", "C02", "C08"], "rlencode": ["C02", "C01"], "parse_region": ["C19", "C04"],
                            "parse_cooler_uri": ["C19", "C15"], "binnify": ["C20"], "get_chromsizes": ["C20", "C02"]},
 }
@@ -271,7 +279,11 @@ def _run_check(wd, pid, shards):
     except subprocess.TimeoutExpired:
         return 3, "timeout"
     lines = [ln for ln in r.stdout.splitlines() if ln.strip().startswith("failure:")]
-    return r.returncode, (lines[0].strip()[:240] if lines else (r.stderr.strip().splitlines() or [""])[-1][:240])
+    exhausted = "budget_exhausted=True" in r.stdout
+    msg = lines[0].strip()[:240] if lines else (r.stderr.strip().splitlines() or [""])[-1][:240]
+    if r.returncode == 0 and exhausted:
+        msg = "budget exhausted (inconclusive)"
+    return r.returncode, msg
 
 
 def run_one(w, wd, site, anchored, shards, skip_tests=False, tests_only=False):
@@ -312,7 +324,8 @@ def run_one(w, wd, site, anchored, shards, skip_tests=False, tests_only=False):
             if rc not in (0, 1):
                 res.update(status="harness-error", by=pid, detail=msg, secs=round(time.time() - t0, 1))
                 return res
-        res.update(status="survived", secs=round(time.time() - t0, 1))
+        inconclusive = any(c[2].startswith("budget exhausted") for c in res["checked"])
+        res.update(status="inconclusive" if inconclusive else "survived", secs=round(time.time() - t0, 1))
         return res
     finally:
         open(path, "w").write(orig)
@@ -375,7 +388,7 @@ def main():
             for l in open(resf):
                 r = json.loads(l)
                 last[r["id"]] = r["status"]
-            want = set(a.ids.split(",")) if a.ids else {k for k, v in last.items() if v == "survived"}
+            want = set(a.ids.split(",")) if a.ids else {k for k, v in last.items() if v in ("survived", "inconclusive", "harness-error")}
             sites = [dict(s_, props=(a.props.split(",") if a.props else s_["props"])) for s_ in sites if s_["id"] in want]
             a.skip_tests = True
         elif a.checks_only:
